@@ -13,11 +13,11 @@
     transition, read on the clocks involved, straddles a calendar-year boundary (excluded by clause (1)
     of [footer_continues]) are covered by the _wide theorems (Proofs/C05Wide.v), which supersede the
     one-year forms. *)
-From Coq Require Import ZArith List Bool.
+From Coq Require Import ZArith List Bool String.
 From V Require Import Base.Int Base.IO.
 From V Require Import Spec.Zone Proofs.TzCommon.
 From V Require Spec.Gregorian.
-From V Require Import Model.TzParser Model.TzRule Model.TzLookup Model.C05 Proofs.C05 Proofs.C05Composite Proofs.C05Glue Proofs.C05Judge Proofs.C05Wide Proofs.C05Full Proofs.C05Holds.
+From V Require Import Model.TzParser Model.TzRule Model.TzLookup Model.C05 Proofs.C05 Proofs.C05Composite Proofs.C05Glue Proofs.C05Judge Proofs.C05Wide Proofs.C05Full Proofs.C05Holds Proofs.C05Ops Proofs.C05OpsZones Proofs.C05OpsComposite Proofs.C05OpsAll.
 From V Require Model.Date Model.DateTime.
 Import ListNotations.
 Open Scope Z_scope.
@@ -938,6 +938,170 @@ Theorem C05_holds_loc_example :
   J.expected_loc (zone_offsets exr_rz) exr_rz 1711852200 = Some [].
 Proof. exact holds_examples. Qed.
 Print Assumptions C05_holds_loc_example.
+
+(** ** C05_holds: the DISPATCHER (Model/C05.v [run]) against the JUDGE (Judge/C05.v [judge]) on whole
+    case lines (Proofs/C05Ops.v, C05OpsZones.v, C05OpsComposite.v, C05OpsAll.v), in the style of
+    C01_holds / C02_holds: for the ops lz.at / lz.loc / lz.sel / lz.rt ([covered_op]) and lz.env, every
+    zone source [src], every judge-side zone model [zm] and EVERY batch [xs] (any value: malformed
+    batches, arguments outside i64 or outside chrono's range, ...), whenever the judge has an opinion it
+    accepts the model's output.  A case carries the zone twice (bytes for the implementation,
+    structured model for the judge, tied by a checksum only); the link between the two is a hypothesis:
+    the reader's result [zone] on [src] and the judge's reading [sz] of [zm] describe the same zone
+    (table_zone / conv_rule ...).  What is used of that link is collected in the contract
+    [lookup_ok zone sz] (the two lookups answer what the oracle prescribes on the judge's domain),
+    proved for table-only zones (C05_lookup_table), rule-only zones = TZ strings (C05_lookup_rule) and
+    composite zones (C05_lookup_composite); C05_holds_table / _rule / _composite are the direct forms.
+    From the lookup to the op's output: [arg_secs] -> supported NaiveDateTime with second count x (C02's
+    from_timestamp), the judge's range condition -> every candidate instant supported (C04's in_rng),
+    C05_from_local_values_candidates / C05_from_utc_values, the encoders.
+    [spaced_elem op sz x] (decidable) = the generator's routing condition for the element x: the judge's
+    own lz.at / lz.loc / lz.sel / lz.rt branches do not test the spacing condition (the known-finding ops
+    lz.uat / lz.uloc / lz.usel / lz.urt take the readings at which it fails); without it the statement is
+    false (C05_unspaced_refuted).  For lz.rt it also asks the rule to be regular around the year of the
+    INSTANT (the judge's lz.urt looks at the year of the wall reading only) and, on composite zones,
+    that the wall reading is not an excepted second ([rt_excepted]; the judge's lz.rt does not except
+    them, and on table-only / rule-only zones neither does the theorem).
+    Not covered: the known-finding ops themselves; table + FIXED footer and fixed-offset TZ strings at
+    this level (lookup level: C05_composite_fixed_classification, C05_offset_at_composite_fixed);
+    rule zones whose std or dst offset is a day or more (the judge judges lz.at there when the answer
+    itself is below a day; C05_rule_offset_spec needs both below a day). *)
+Theorem C05_holds : forall op src zm xs zone sz,
+  lookup_ok zone sz -> zone_of_src src = Some (Val (Ok zone)) -> J.dec_zone src zm = Some sz ->
+  covered_op op = true -> (forall x, In x (elems xs) -> spaced_elem op sz x = true) ->
+  J.judge op [src; zm; xs] (run op [src; zm; xs]) <> JSkip ->
+  J.judge op [src; zm; xs] (run op [src; zm; xs]) = JOk.
+Proof. exact holds_ops. Qed.
+Print Assumptions C05_holds.
+(* lz.env: lz.at (direction 0) / lz.loc (direction 1) through the public route; any other direction
+   is outside the judge's domain *)
+Theorem C05_holds_env : forall b zm dir xs zone sz,
+  lookup_ok zone sz -> parse b = Val (Ok zone) -> J.dec_zone (VStr b) zm = Some sz ->
+  (forall x, In x (elems xs) -> (if dir =? 0 then at_spaced sz x else J.spacing_ok sz x) = true) ->
+  J.judge B"lz.env" [VStr b; zm; VInt dir; xs] (run B"lz.env" [VStr b; zm; VInt dir; xs]) <> JSkip ->
+  J.judge B"lz.env" [VStr b; zm; VInt dir; xs] (run B"lz.env" [VStr b; zm; VInt dir; xs]) = JOk.
+Proof. exact holds_env. Qed.
+Print Assumptions C05_holds_env.
+
+(* the contract, for the three kinds of zone *)
+Theorem C05_lookup_table : forall zone ps first,
+  table_zone zone ps first -> leap_seconds zone = [] -> extra_rule zone = None ->
+  increasing (offs ps) = true -> zlen (transitions zone) < 4611686018427387904 ->
+  lookup_ok zone (szone_of ps first).
+Proof. exact lookup_table. Qed.
+Print Assumptions C05_lookup_table.
+Theorem C05_lookup_rule : forall zone a first,
+  let r := conv_rule a in
+  transitions zone = [] -> index (local_time_types zone) 0 = Val first -> leap_seconds zone = [] ->
+  extra_rule zone = Some (Alternate a) -> alt_ok a -> r_std r <> r_dst r ->
+  J.fo_ok (r_std r) = true -> J.fo_ok (r_dst r) = true ->
+  lookup_ok zone (mk_szone (ut_offset first) [] (Some (inr r))).
+Proof. exact lookup_rule. Qed.
+Print Assumptions C05_lookup_rule.
+(* composite zones: zone-level, the wide continuity condition and the premise in the (at most two)
+   years met by the last table transition (C05_judge_spacing_footer_wide derives the condition from
+   the judge's spacing_rule_table); per reading NOTHING beyond what the judge asks: past the last table
+   window the premise in the judge's years y-2..y+2 only (C05_composite_classification_wide asks for
+   y-3..y+2: superseded on the judge's domain by C05_composite_classification_judge_years below) *)
+Theorem C05_lookup_composite : forall zone ps first a,
+  let r := conv_rule a in let cz := mk_szone (ut_offset first) (offs ps) (Some (inr r)) in
+  table_zone zone ps first -> leap_seconds zone = [] -> extra_rule zone = Some (Alternate a) ->
+  alt_ok a -> r_std r <> r_dst r -> increasing (offs ps) = true ->
+  zlen (transitions zone) < 4611686018427387904 ->
+  footer_continues_wide cz = true ->
+  rule_year_hyps r (footer_year_lo cz) -> rule_year_hyps r (footer_year_hi cz) ->
+  lookup_ok zone cz.
+Proof. exact lookup_composite. Qed.
+Print Assumptions C05_lookup_composite.
+(* what the contract says, spelled out (the record's three fields) *)
+Theorem C05_lookup_ok_fields : forall zone sz, lookup_ok zone sz ->
+  (forall t o, at_spaced sz t = true -> J.in_dom sz t = true -> zone_off sz t = Some o ->
+     exists lt, find_local_time_type zone t = Val (Ok lt) /\ ut_offset lt = o) /\
+  (forall w l, J.spacing_ok sz w = true -> J.expected_loc (zone_offsets sz) sz w = Some l ->
+     exists m, find_local_time_type_from_local zone (utc_year w) w = Val (Ok m) /\
+               mlt_list (mlt_map m ut_offset) = l) /\
+  (forall t o, J.spacing_ok sz (t + o) = true -> J.in_dom sz t = true -> zone_off sz t = Some o ->
+     J.in_dom sz (t + o) = true -> J.offsets_ok sz = true -> rt_excepted sz (t + o) = false ->
+     exists m, find_local_time_type_from_local zone (utc_year (t + o)) (t + o) = Val (Ok m) /\
+               contains m o /\ (forall o', contains m o' -> In o' (zone_offsets sz)) /\
+               (forall a b, m = MAmbiguous a b -> ut_offset a > ut_offset b)).
+Proof. exact (fun zone sz L => conj (lk_at zone sz L) (conj (lk_loc zone sz L) (lk_rt zone sz L))). Qed.
+Print Assumptions C05_lookup_ok_fields.
+
+(* composite zones, classification of EVERY reading off the excepted seconds with the rule premise,
+   past the last table window, stated through the year formula [year_formula r k] that the judge's
+   premise y-2..y+2 yields (C05_rule_is_dst_year_judge_premise); (tl, pv, ol) = the last table transition,
+   [join_facts] = what footer_continues_wide + the premise at the footer years give *)
+Theorem C05_composite_classification_judge_years : forall z ps first a tl pv ol l,
+  let k := utc_year l in let r := conv_rule a in
+  let cz := mk_szone (ut_offset first) (offs ps) (Some (inr r)) in
+  table_zone z ps first -> extra_rule z = Some (Alternate a) -> alt_ok a -> r_std r <> r_dst r ->
+  increasing (offs ps) = true -> spacing_table (offs ps) (ut_offset first) = true ->
+  last_window (offs ps) (ut_offset first) = Some (tl, pv, ol) -> join_facts r tl pv ol ->
+  (tl + Z.max pv ol < l -> rule_reading_hyps5 a l) ->
+  excepted_wall cz l = false ->
+  exists m, find_local_time_type_from_local z k l = Val (Ok m) /\ classified cz l m.
+Proof. exact composite_classification_join5. Qed.
+Print Assumptions C05_composite_classification_judge_years.
+(* the round trip of a TZ string on EVERY instant from the year formula alone (supersedes, on the
+   judge's domain, the years y-3..y+2 of C05_roundtrip_rule_zone) *)
+Theorem C05_roundtrip_rule_judge_years : forall a t,
+  let r := conv_rule a in let o := roff r t in let l := t + o in let k := utc_year l in
+  r_std r <> r_dst r -> year_formula r k ->
+  ordered (windows (offs (fst (year_table a k))) (ut_offset (snd (year_table a k)))) = true ->
+  contains (rule_answer a k l) o.
+Proof. exact rule_rt_gen. Qed.
+Print Assumptions C05_roundtrip_rule_judge_years.
+
+(* direct forms *)
+Theorem C05_holds_table : forall op src zm xs zone ps first,
+  zone_of_src src = Some (Val (Ok zone)) -> J.dec_zone src zm = Some (szone_of ps first) ->
+  table_zone zone ps first -> leap_seconds zone = [] -> extra_rule zone = None ->
+  increasing (offs ps) = true -> zlen (transitions zone) < 4611686018427387904 ->
+  covered_op op = true -> (forall x, In x (elems xs) -> spaced_elem op (szone_of ps first) x = true) ->
+  J.judge op [src; zm; xs] (run op [src; zm; xs]) <> JSkip ->
+  J.judge op [src; zm; xs] (run op [src; zm; xs]) = JOk.
+Proof. exact holds_table. Qed.
+Print Assumptions C05_holds_table.
+Theorem C05_holds_rule : forall op src zm xs zone a first,
+  let r := conv_rule a in let rz := mk_szone (ut_offset first) [] (Some (inr r)) in
+  zone_of_src src = Some (Val (Ok zone)) -> J.dec_zone src zm = Some rz ->
+  transitions zone = [] -> index (local_time_types zone) 0 = Val first -> leap_seconds zone = [] ->
+  extra_rule zone = Some (Alternate a) -> alt_ok a -> r_std r <> r_dst r ->
+  J.fo_ok (r_std r) = true -> J.fo_ok (r_dst r) = true ->
+  covered_op op = true -> (forall x, In x (elems xs) -> spaced_elem op rz x = true) ->
+  J.judge op [src; zm; xs] (run op [src; zm; xs]) <> JSkip ->
+  J.judge op [src; zm; xs] (run op [src; zm; xs]) = JOk.
+Proof. exact holds_rule. Qed.
+Print Assumptions C05_holds_rule.
+Theorem C05_holds_composite : forall op src zm xs zone ps first a,
+  let r := conv_rule a in let cz := mk_szone (ut_offset first) (offs ps) (Some (inr r)) in
+  zone_of_src src = Some (Val (Ok zone)) -> J.dec_zone src zm = Some cz ->
+  table_zone zone ps first -> leap_seconds zone = [] -> extra_rule zone = Some (Alternate a) ->
+  alt_ok a -> r_std r <> r_dst r -> increasing (offs ps) = true ->
+  zlen (transitions zone) < 4611686018427387904 ->
+  footer_continues_wide cz = true ->
+  rule_year_hyps r (footer_year_lo cz) -> rule_year_hyps r (footer_year_hi cz) ->
+  covered_op op = true -> (forall x, In x (elems xs) -> spaced_elem op cz x = true) ->
+  J.judge op [src; zm; xs] (run op [src; zm; xs]) <> JSkip ->
+  J.judge op [src; zm; xs] (run op [src; zm; xs]) = JOk.
+Proof. exact holds_composite. Qed.
+Print Assumptions C05_holds_composite.
+(* inhabited: the case line of corpus/C05/straddle.case read by the case protocol; the reader's result
+   is strad_zone, the judge's reading strad_cz (hypotheses of C05_holds_composite: C05_composite_wide_example),
+   every element passes the routing condition, and the judge accepts under all five ops *)
+Example C05_holds_inhabited :
+  zone_of_src exh_src = Some (Val (Ok strad_zone)) /\ J.dec_zone exh_src exh_zm = Some strad_cz /\
+  elems exh_xs = [1704065400; 1704069000; 1704067200; 1704060000] /\
+  forallb (spaced_elem B"lz.loc" strad_cz) (elems exh_xs) = true /\
+  forallb (spaced_elem B"lz.rt" strad_cz) (elems exh_xs) = true /\
+  forallb (spaced_elem B"lz.at" strad_cz) (elems exh_xs) = true /\
+  J.judge B"lz.loc" [exh_src; exh_zm; exh_xs] (run B"lz.loc" [exh_src; exh_zm; exh_xs]) = JOk /\
+  J.judge B"lz.sel" [exh_src; exh_zm; exh_xs] (run B"lz.sel" [exh_src; exh_zm; exh_xs]) = JOk /\
+  J.judge B"lz.rt" [exh_src; exh_zm; exh_xs] (run B"lz.rt" [exh_src; exh_zm; exh_xs]) = JOk /\
+  J.judge B"lz.at" [exh_src; exh_zm; exh_xs] (run B"lz.at" [exh_src; exh_zm; exh_xs]) = JOk /\
+  J.judge B"lz.env" [exh_src; exh_zm; VInt 1; exh_xs] (run B"lz.env" [exh_src; exh_zm; VInt 1; exh_xs]) = JOk.
+Proof. exact exh_facts. Qed.
+Print Assumptions C05_holds_inhabited.
 
 (** ** Known finding C05-closely-spaced-transitions: the spacing hypothesis of
     C05_classification_table / C05_roundtrip_table cannot be dropped *)
